@@ -12,7 +12,8 @@ ID = "C11"
 LEVEL = "exploration"
 RULE = (
     "Generated: one- and two-operand equations over <=5 symbols, operand rank "
-    "<=4 (repeated labels, batch, outer, Hadamard, size-1 dims), any ordered "
+    "<=4 (repeated labels, batch, outer, Hadamard, size-1 dims, size-1 axes "
+    "stretched against longer ones as numpy broadcasts them), any ordered "
     "output, shapes from {1,2,3,4}; tensordot with every integer axes and "
     "drawn valid axis-list pairs; single-operand equations both through the "
     "public einsum and through the documented matmul-free fallback (a backend "
@@ -25,7 +26,7 @@ RULE = (
     "Distinct = sha1(spec)."
 )
 ASSUMPTIONS = [
-    "one size per label (no stretching of a size-1 dim against a longer one)",
+    "broadcast shapes (a size-1 axis against a longer one for the same label) are judged against numpy.einsum; the dense evaluator needs one size per label",
     "tensordot axes given as an int or as a pair of sequences (the documented forms); negative axis numbers included",
 ]
 
@@ -49,11 +50,20 @@ def eq_cases(draw):
         else []
     )
     sizes = {ix: draw(st.sampled_from([1, 2, 2, 3, 3, 4])) for ix in used}
+    # broadcasting: an axis of one operand may have size 1 where the label has
+    # a larger size on the other operand (numpy.einsum stretches it; the
+    # library's matmul plan says it supports that). [operand, axis] pairs.
+    stretch = []
+    if nops == 2 and draw(st.integers(0, 3)) == 0:
+        cand = [(i, j) for i, t in enumerate(terms) for j, ix in enumerate(t) if sizes[ix] > 1 and t.count(ix) == 1]
+        if cand:
+            stretch = [list(x) for x in draw(st.lists(st.sampled_from(cand), min_size=1, max_size=2, unique=True))]
     return {
         "kind": "einsum",
         "terms": ["".join(t) for t in terms],
         "out": "".join(out),
         "sizes": sizes,
+        "stretch": stretch,
         "fallback": draw(st.booleans()),
         "aseed": draw(st.integers(0, 99)),
         "dtype": draw(st.sampled_from(["f", "c"])),
@@ -131,8 +141,21 @@ def run_einsum(spec):
     out = tuple(spec["out"])
     sizes = dict(spec["sizes"])
     arrays = ref.make_arrays(terms, sizes, spec["aseed"], spec.get("dtype", "f"))
-    exp = ref.dense_ref(terms, out, sizes, arrays)
     eq = ",".join(spec["terms"]) + "->" + spec["out"]
+    stretched = False
+    for i, j in spec.get("stretch") or []:
+        # keep only the first hyperplane along that axis: a size-1 axis
+        arrays[i] = np.take(arrays[i], [0], axis=j)
+        stretched = True
+    if stretched:
+        # the dense evaluator wants one size per label: numpy.einsum is the
+        # reference for broadcast shapes (cases it rejects are skipped)
+        try:
+            exp = np.einsum(eq, *arrays)
+        except Exception:
+            return Outcome([], False, ["numpy_rejects_stretch"])
+    else:
+        exp = ref.dense_ref(terms, out, sizes, arrays)
     viol = []
     if len(terms) == 1 and spec.get("fallback"):
         ok, got = guarded(cc.einsum, eq, arrays[0], backend=fallback_backend())
@@ -168,7 +191,9 @@ def run_einsum(spec):
         cls.append("single_operand")
         if spec.get("fallback"):
             cls.append("fallback_plan")
-    nontrivial = bool({"repeat", "size1", "batch"} & set(cls))
+    if stretched:
+        cls.append("stretched_size1_axis")
+    nontrivial = bool({"repeat", "size1", "batch", "stretched_size1_axis"} & set(cls))
     return Outcome(viol, nontrivial, cls)
 
 
